@@ -44,11 +44,13 @@ type sshdRig struct {
 	proc   sshd.SshdProcessor
 }
 
-func newSshdRig(loginsCap int) *sshdRig {
+func newSshdRig(loginsCap int) *sshdRig { return newSshdRigCtx(context.Background(), loginsCap) }
+
+func newSshdRigCtx(ctx context.Context, loginsCap int) *sshdRig {
 	r := &sshdRig{rec: &Rec{}, reg: prometheus.NewRegistry()}
 	r.logins = make(chan common.RemoteUserLogin, loginsCap)
 	mp := metrics.NewPrometheusMetricsProviderForRegisterer(r.reg)
-	r.proc = sshd.NewSshdProcessor(context.Background(), r.logins, vhNode, vhMachineID, newWriter(r.rec), mp)
+	r.proc = sshd.NewSshdProcessor(ctx, r.logins, vhNode, vhMachineID, newWriter(r.rec), mp)
 	return r
 }
 
@@ -668,8 +670,9 @@ func FuzzC17(f *testing.F) {
 // C19 — every emitted UserLogin is counted once, under the matching outcome.
 
 type c19Case struct {
-	M    *sshdMsg  `json:"m,omitempty"`
-	Junk *junkLine `json:"junk,omitempty"`
+	M      *sshdMsg  `json:"m,omitempty"`
+	Junk   *junkLine `json:"junk,omitempty"`
+	Cancel bool      `json:"cancel,omitempty"` // nobody receives the login and the context is cancelled once the event is written (shutdown)
 }
 
 func genC19(rt *rapid.T) c19Case {
@@ -678,7 +681,7 @@ func genC19(rt *rapid.T) c19Case {
 		return c19Case{Junk: &j}
 	}
 	m := genSshdMsg(rt)
-	return c19Case{M: &m}
+	return c19Case{M: &m, Cancel: m.Accepted && rapid.IntRange(0, 3).Draw(rt, "cancel") == 0}
 }
 
 func execC19(c c19Case) Outcome {
@@ -689,8 +692,42 @@ func execC19(c c19Case) Outcome {
 	} else {
 		pid, msg = c.Junk.PID, string(c.Junk.Msg)
 	}
-	before := rig.loginCounters()
-	err, panicked := processNoPanic(rig, pid, msg)
+	var err error
+	var panicked bool
+	var before map[string]float64
+	if c.Cancel {
+		// the event is written, the hand-off finds no receiver, then the worker's
+		// context is cancelled: the event was emitted, so it must have been counted
+		ctx, cancel := context.WithCancel(context.Background())
+		rig = newSshdRigCtx(ctx, 0)
+		before = rig.loginCounters()
+		returned := make(chan struct{})
+		go func() {
+			deadline := time.Now().Add(300 * time.Millisecond)
+			for rig.rec.Len() == 0 && time.Now().Before(deadline) {
+				select {
+				case <-returned:
+					cancel()
+					return
+				case <-time.After(200 * time.Microsecond):
+				}
+			}
+			cancel()
+		}()
+		func() {
+			defer close(returned)
+			defer func() {
+				if r := recover(); r != nil {
+					panicked = true
+				}
+			}()
+			err = rig.proc.ProcessSshdLogEntry(ctx, sshd.SshdLogEntry{PID: pid, Message: msg})
+		}()
+		cancel()
+	} else {
+		before = rig.loginCounters()
+		err, panicked = processNoPanic(rig, pid, msg)
+	}
 	if panicked {
 		return Outcome{Skip: "panic_in_code_under_test_(C11's_concern)"}
 	}
@@ -712,6 +749,9 @@ func execC19(c c19Case) Outcome {
 		labels = append(labels, "form:"+c.M.Form)
 	} else {
 		labels = append(labels, "junk:"+c.Junk.Kind)
+	}
+	if c.Cancel {
+		labels = append(labels, "cancelled_while_handing_over")
 	}
 	if len(evs) == 0 {
 		if !startsWithKeyword(msg) && total != 0 {
